@@ -122,6 +122,7 @@ fn audit_table(s: &Searcher, p: &Pos, depth: u8, rs: &mut RefSearch, st: &mut St
 
 /// One C05 case. mode "id" = find_best_move (iterative deepening, public API), "fixed" = hook.
 fn c05_case(p: &Pos, depth: u8, mode: &str, rs: &mut RefSearch, st: &mut Stats, audit: bool) {
+    crate::report::note_case(&format!("search of {} to depth {} ({})", p.to_fen(), depth, mode));
     let b = eng::board_from_pos(p);
     let legal = p.legal_moves();
     if legal.is_empty() {
@@ -550,6 +551,7 @@ fn c08_material_tags(p: &Pos) -> Vec<&'static str> {
 }
 
 fn c08_search(p: &Pos, depth: u8) -> Result<Option<String>, String> {
+    crate::report::note_case(&format!("search of {} to depth {}", p.to_fen(), depth));
     let b = eng::board_from_pos(p);
     engine_call(|| {
         let mut s = Searcher::new();
